@@ -125,4 +125,5 @@ func registerAll() {
 	registerStream()
 	registerC01()
 	registerProc()
+	registerC10()
 }
